@@ -9,6 +9,10 @@ minimised argument class of a finding.
 """
 from __future__ import annotations
 
+import os as _os
+
+_os.environ.setdefault("TORCH_CPP_LOG_LEVEL", "ERROR")  # C++ TORCH_WARN lines would pollute the check's output
+
 import itertools
 import os
 
